@@ -152,6 +152,44 @@ def zoneOp (spec : Bool) (args : List String) : String :=
       ((if e then "err " else "ok ") ++ showRs rs).trimAscii.toString
   | _ => "bad-op"
 
+/-- field values on the line: `n:<dec>`, `b:<hex>`, `t:<hex>` (name text), `s:<hex>,<hex>,…` (`~` = empty string, `-` = no octets / no strings) -/
+def parseVal (tok : String) : Option Val :=
+  match tok.splitOn ":" with
+  | ["n", v] => v.toNat?.map Val.n
+  | ["b", h] => if h == "-" then some (.b []) else (unhex h).map Val.b
+  | ["t", h] => if h == "-" then some (.t []) else (unhex h).map Val.t
+  | ["s", h] =>
+    if h == "-" then some (.ss [])
+    else (h.splitOn ",").mapM (fun x => if x == "~" then some [] else unhex x) |>.map Val.ss
+  | _ => none
+
+def showVal : Val → String
+  | .n v => s!"n:{v}"
+  | .b [] => "b:-"
+  | .b bs => "b:" ++ hex bs
+  | .t [] => "t:-"
+  | .t bs => "t:" ++ hex bs
+  | .ss [] => "s:-"
+  | .ss strs => "s:" ++ ",".intercalate (strs.map (fun x => if x.isEmpty then "~" else hex x))
+
+def codecPack (typ : String) (args : List String) : String :=
+  match Gen.packCodecs.lookup typ, args.mapM parseVal with
+  | some plan, some vals =>
+    if plan.contains .other then "uncovered"
+    else match packPlan plan vals with
+      | some w => if w.isEmpty then "-" else hex w
+      | none => "none"
+  | _, _ => "bad-op"
+
+def codecUnpack (typ : String) (rd : String) : String :=
+  match Gen.unpackCodecs.lookup typ, (if rd == "-" then some [] else unhex rd) with
+  | some plan, some bytes =>
+    if plan.contains .other then "uncovered"
+    else match unpackPlan plan bytes [] with
+      | some vals => " ".intercalate (vals.map showVal)
+      | none => "none"
+  | _, _ => "bad-op"
+
 /-- one operation: op name and arguments → one canonical output line -/
 def runOp (op : String) (args : List String) : String :=
   match op, args with
@@ -326,6 +364,8 @@ def runOp (op : String) (args : List String) : String :=
     | some t => (match ttlSpec t with | some v => s!"ok {v}" | none => "err") | none => "bad-op"
   | "zone.run", args => zoneOp false args
   | "spec.zone", args => zoneOp true args
+  | "codec.pack", typ :: vals => codecPack typ vals
+  | "codec.unpack", [typ, rd] => codecUnpack typ rd
   | "txt.escape", [t] => match unhex t with
     | some b => hex (txtEscape b) | none => "bad-op"
   | "txt.unescape", [t] => match unhex t with
